@@ -124,7 +124,15 @@ def run(ctx):
         meta.append(("base", None, base_i, theme))
         if not theme.startswith("example") or True:
             init_reqs.append((f"init {prob.enc()}", prob))
-        for name, q, back in rewrites(prob, rng):
+        try:
+            rw_list = list(rewrites(prob, rng))
+        except (IndexError, KeyError, ValueError) as e:
+            # the constructor produced something the rewriting cannot even address (e.g. a constraint over a variable that does not
+            # exist): the model "as written" is not the model "as built"
+            viol.append({"kind": "rewrite", "problem": prob.to_json(), "theme": theme,
+                         "detail": f"the problem built by the constructor is malformed (a constraint refers to a variable outside the variable list?): {type(e).__name__}: {e}"})
+            rw_list = []
+        for name, q, back in rw_list:
             cfg_q = cfg
             if name in ("unshare", "translate"):
                 cfg_q = nv.Cfg(cons=cfg.cons)  # cost tables / decision lists do not carry over to the new shape
